@@ -435,12 +435,12 @@ OBLIGATIONS = [
 # ---------------------------------------------------------------------------------------------
 
 
-def _explore(res, name, K, D, pre, action, post, extra_caps=None, max_paths=300, on_violation=None, labels=None, cte_depth=None, allow_integrity=False):
+def _explore(res, name, K, D, pre, action, post, extra_caps=None, max_paths=300, on_violation=None, labels=None, cte_depth=None, allow_integrity=False, fixed=None, allow_exc=()):
     """Generic inductive-step driver: fresh symbolic state, assume pre, run action natively, check post."""
     counts = {"paths": 0, "raised": 0}
 
     def body(run):
-        wf = Wf(K=K, D=D, extra_caps=extra_caps or {}, labels=labels)
+        wf = Wf(K=K, D=D, extra_caps=extra_caps or {}, labels=labels, fixed=fixed)
         wf.ctx.cte_depth = cte_depth or K
         for c in wf.cons + wf.inv():
             run.assume(c)
@@ -465,7 +465,7 @@ def _explore(res, name, K, D, pre, action, post, extra_caps=None, max_paths=300,
 
             from stepup.core.exceptions import UsageError
 
-            if isinstance(exc, UsageError) or (allow_integrity and isinstance(exc, sqlite3.IntegrityError)):
+            if isinstance(exc, (UsageError, *allow_exc)) or (allow_integrity and isinstance(exc, sqlite3.IntegrityError)):
                 return  # a rejected request: allowed outcome
             v, m, dt = pr.run.query()
             res.q(f"{name}: no internal error ({type(exc).__name__}: {str(exc)[:80]})", "sat" if v == "sat" else v, dt)
@@ -479,7 +479,7 @@ def _explore(res, name, K, D, pre, action, post, extra_caps=None, max_paths=300,
         res.q(f"{name}: post-condition on path {counts['paths']}", v, dt)
         if v == "sat":
             which = [i for i, b in enumerate(bad) if z3.is_true(m.eval(b, model_completion=True))]
-            wf0 = Wf(K=K, D=D, extra_caps=extra_caps or {}, labels=labels)
+            wf0 = Wf(K=K, D=D, extra_caps=extra_caps or {}, labels=labels, fixed=fixed)
             content = _content_json(wf0, m)
             if on_violation is not None:
                 on_violation(res, wf0, m, content, which, aux)
@@ -496,7 +496,7 @@ def _explore(res, name, K, D, pre, action, post, extra_caps=None, max_paths=300,
 
 
 def _replay_generic(res, oid, key, content, body_code, what, targets=None):
-    rp = write_replay("C10", oid, f"{key} {content}", REPLAY_DB.format(content=content, targets=targets or {}, body=body_code))
+    rp = write_replay("C" + oid[1:3], oid, f"{key} {content}", REPLAY_DB.format(content=content, targets=targets or {}, body=body_code))
     ok, out = run_replay(rp)
     if ok:
         if not any(v.key == key for v in res.violations):
